@@ -418,6 +418,82 @@ func ruleFIELD1(c *Ctx) {
 			}
 		}
 		c.Oblige("fields:emitted-in-declaration-order", f.Pos(), finalIdx, "the flattened fields are not finally ordered by their index path")
+		// both lookup indexes cover every flattened field: each store into byActualName / byFoldedName that sits in a
+		// loop over the flattened fields is a direct statement of the loop body and no branch statement precedes it
+		for _, idxName := range []string{"byActualName", "byFoldedName"} {
+			stores, okTotal, why := 0, true, ""
+			for _, g := range p.CalleeClosure(f, 2) {
+				if g.Decl == nil || g.Body() == nil {
+					continue
+				}
+				gi := g.Info()
+				ast.Inspect(g.Body(), func(nd ast.Node) bool {
+					as, ok := nd.(*ast.AssignStmt)
+					if !ok || len(as.Lhs) != 1 {
+						return true
+					}
+					ix, ok := ast.Unparen(as.Lhs[0]).(*ast.IndexExpr)
+					if !ok {
+						return true
+					}
+					if fld := SelField(gi, ix.X); fld == nil || fld.Name() != idxName {
+						return true
+					}
+					// innermost enclosing range statement
+					var rng *ast.RangeStmt
+					var cur ast.Node = as
+					for cur != nil && cur != ast.Node(g.Body()) {
+						cur = p.Parent(g.File, cur)
+						if r, ok := cur.(*ast.RangeStmt); ok {
+							rng = r
+							break
+						}
+					}
+					if rng == nil {
+						return true
+					}
+					if fld := SelField(gi, rng.X); fld == nil || fld.Name() != "flattened" {
+						if id, ok := ast.Unparen(rng.X).(*ast.Ident); !ok || id.Name != "flattened" {
+							return true // a loop over something else (the per-name candidate lists)
+						}
+					}
+					stores++
+					direct := false
+					for _, st := range rng.Body.List {
+						if st == ast.Stmt(as) {
+							direct = true
+							break
+						}
+						brk := false
+						ast.Inspect(st, func(m ast.Node) bool {
+							switch m.(type) {
+							case *ast.BranchStmt, *ast.ReturnStmt:
+								brk = true
+							case *ast.FuncLit:
+								return false
+							}
+							return true
+						})
+						if brk {
+							why = "a continue/break/return precedes the store at " + p.Position(as.Pos())
+							break
+						}
+					}
+					if !direct {
+						okTotal = false
+						if why == "" {
+							why = "the store at " + p.Position(as.Pos()) + " is conditional"
+						}
+					}
+					return true
+				})
+			}
+			if stores == 0 {
+				c.Undecide("json.makeStructFields/"+idxName, "no store into "+idxName+" in a loop over the flattened fields")
+				continue
+			}
+			c.Oblige("fields:index-total:"+idxName, f.Pos(), okTotal, "not every flattened field is entered into "+idxName+" ("+why+"): lookups that use this index as a pre-filter (the duplicate check of embedded-fallback names, case-insensitive matching) miss the skipped fields")
+		}
 	}
 
 	// matchFoldedName
